@@ -125,7 +125,96 @@ def gen_case(seed, k):
     return c
 
 
+TWIN_WRAPS = ["&{l} {T}", "&{l} [{T}]", "&{l} ::std::vec::Vec<{T}>", "(&{l} {T}, u8)", "::core::option::Option<&{l} {T}>",
+              "&{l} ::std::boxed::Box<{T}>"]
+# (type over the second parameter, traits it implements whatever the argument is, field attribute)
+BYSTANDERS = [
+    ("::core::marker::PhantomData<{U}>", {"Debug", "Clone", "PartialEq", "Hash"}, ""),
+    ("*const {U}", {"Debug", "Clone", "PartialEq", "Hash"}, ""),
+    ("&'a {U}", {"Clone"}, ""),
+    ("::std::rc::Rc<{U}>", {"Clone"}, ""),
+    ("::core::option::Option<{U}>", set(), ""),
+    ("{U}", {"Debug", "PartialEq", "Hash"}, "ignore"),
+]
+
+
+def twin_case(seed, k):
+    """two fields whose types differ only in a lifetime (the bound then falls on the parameter they mention) next to a
+    field over a second parameter that keeps its own exact bound: declared before, between or after them, with parameter
+    names that occur inside the names of the types around them (`V` / `Vec`, `O` / `Option`, `B` / `Box`, ...)"""
+    rng = rng_for(seed, PROP, "twin", k)
+    traits = [t for t in ("Debug", "Clone", "PartialEq", "Hash") if rng.random() < 0.6] or ["Debug"]
+    tn = rng.choice(["T", "A", "K", "E"])
+    un = rng.choice([x for x in ("U", "V", "B", "O", "S", "P", "R", "c", "e", "x") if x != tn])
+    wrap = rng.choice(TWIN_WRAPS)
+    bty, always, battr = rng.choice(BYSTANDERS)
+    twins = [wrap.format(l="'a", T=tn), wrap.format(l="'b", T=tn)]
+    batt = ""
+    if battr:
+        batt = "#[educe(%s)] " % ", ".join("%s(ignore)" % t for t in traits if t in always)
+        if batt == "#[educe()] ":
+            batt = ""
+    by = (batt, bty.format(U=un))
+    fields = [("", twins[0]), ("", twins[1])]
+    pos = rng.choice([0, 1, 2])
+    fields.insert(pos, by)
+    if rng.random() < 0.3:
+        fields.insert(rng.randint(0, len(fields)), ("", "u8"))
+    kind = rng.choice(["struct", "tuple", "enum"])
+    head = "#[derive(::educe::Educe)]\n#[allow(non_camel_case_types)]\n#[educe(%s)]\n" % ", ".join(traits)
+    gens = "<'a, 'b, %s, %s>" % (tn, un)
+    if kind == "struct":
+        text = head + "pub struct Ty%s {\n%s}\n" % (gens, "".join("    %spub f%d: %s,\n" % (a, i, t) for i, (a, t) in enumerate(fields)))
+    elif kind == "tuple":
+        text = head + "pub struct Ty%s(%s);\n" % (gens, ", ".join("%spub %s" % (a, t) for a, t in fields))
+    else:
+        text = head + "pub enum Ty%s {\n    V0(%s),\n    V1 { %s },\n}\n" % (
+            gens, ", ".join("%s%s" % (a, t) for a, t in fields), ", ".join("%sf%d: %s" % (a, i, t) for i, (a, t) in enumerate(fields)))
+    probes, lines, want = [], [], []
+    for t in traits:
+        no = "No" + t
+        for ta, ua in (("Yes", "Yes"), ("Yes", no), (no, "Yes")):
+            if t == "Clone" and ta != "Yes":
+                continue   # `&T: Clone` for every T: what the twins need from T is not probed for Clone
+            tr = PROBE_TRAIT[t]
+            probes.append((t, None, {tn: ta, un: ua}))
+            lines.append("(%s) as u8" % probe("Ty<'static, 'static, %s%s, %s%s>" % (RT, ta, RT, ua), tr))
+            want.append(ta == "Yes" and (ua == "Yes" or t in always))
+    drive = ("        let p: Vec<u8> = vec![%s];\n        %sbegin(); %sobs(\"w%d\", \"probes\", 0, -1, &format!(\"{:?}\", p));"
+             % (",\n            ".join(lines), RT, RT, k))
+    c = BH.Case("w%d" % k, None, text, [], drive=drive, info={"probes": probes, "want": want, "twin": True, "pos": pos, "names": tn + un})
+    c.module = lambda c=c: H.module(c.cid, c.text + "pub fn run() {\n    %sguarded(\"%s\", || {\n%s\n    });\n}\n" % (RT, c.cid, c.drive))
+    return c
+
+
+def judge_twin(chk, c, obs, dropped):
+    if c.cid in dropped:
+        d = dropped[c.cid][0]
+        chk.violation("twin-does-not-compile|%s" % (d.get("code") or d["message"][:40]),
+                      "field types that differ only in a lifetime: the derive does not compile\n%s\n%s" % (d.get("rendered") or d["message"], c.text),
+                      {"case.rs": c.module()})
+        return
+    o = obs.get(c.cid)
+    if o is None or not o.began or o.panic or not o.recs:
+        chk.inconc("not-run")
+        return
+    got = json.loads(o.recs[0][3][0])
+    if len(got) != len(c.info["probes"]):
+        chk.inconc("incomplete-output")
+        return
+    for (t, _, args), g, w in zip(c.info["probes"], got, c.info["want"]):
+        if bool(g) != w:
+            chk.violation("bounds|%s|%s|lifetime-twins" % (t, "too-strict" if w else "too-loose"),
+                          "`Ty<%s>: %s` is %s, the fields need it to be %s (the parameter next to the lifetime twins keeps the bound of "
+                          "its own field)\n%s" % (args, t, bool(g), w, c.text), {"case.rs": c.module()})
+            return
+    chk.held(digest(c.text), True, len(got))
+    chk.count("lifetime-twins/bystander-%s" % ("before", "between", "after")[c.info["pos"]])
+
+
 def judge(chk, c, obs, dropped, d2):
+    if c.info.get("twin"):
+        return judge_twin(chk, c, obs, dropped)
     td = c.td
     if c.cid in dropped:
         chk.inconc("does-not-compile (see C01)")
@@ -183,7 +272,9 @@ def main(tier, seed, scale=1.0):
             k += 1
             if c is not None:
                 cases.append(c)
-        d2 = B.run_inproc([(c.cid, c.text.replace("::educe::Educe", "Educe")) for c in cases], items=True)
+        if done == 0:
+            cases += [twin_case(seed, j) for j in range(max(40, n // 12))]
+        d2 = B.run_inproc([(c.cid, c.text.replace("::educe::Educe", "Educe")) for c in cases if not c.info.get("twin")], items=True)
         obs, dropped, crashed, _, _ = BH.execute("c11", cases)
         for c in cases:
             judge(chk, c, obs, dropped, d2)
